@@ -1419,6 +1419,7 @@ def run(chk):
             capt_control = w0 in mwords and regs.witness(w0) is not None and month_abbreviates(cul, w0) is not None
     chk.control('C06.capturable', capt_control)
     rule_order(chk, idx, W, dp_cfgs)
+    rule_textindex(chk, idx)
     rule_flags(chk, idx, W)
     chk.exhaustive = False
 
@@ -1542,6 +1543,155 @@ def rule_order(chk, idx, W, dp_cfgs):
     dm = _ResStr(r'(?<day>\d{1,2})/(?<month>\d{1,2})/(?<year>\d{4})', 'Control', 'DayFirst')
     r0, r1 = first_reading([md, dm], '', '5/6/2016'), first_reading([dm, md], '', '5/6/2016')
     chk.control('C06.order', r0 is not None and r1 is not None and (r0[1], r0[2]) == ('5', '6') and (r1[1], r1[2]) == ('6', '5'))
+
+
+# =====================================================================================================
+# C06.textindex - reading one character of the text at a regex match boundary (S[m.end() + k], S[m.start() - k]) needs a
+# dominating bound test: m.end() may equal len(S) (IndexError, swallowed by the model: every entity of the query is lost),
+# m.start() may be 0 (a negative index silently reads from the other end)
+# =====================================================================================================
+
+def _lin(e):
+    """(base text or None, constant) of  <position> +/- c  where <position> is m.end() / m.start() / len(S) / nothing"""
+    if isinstance(e, ast.Constant) and isinstance(e.value, int) and not isinstance(e.value, bool):
+        return None, e.value
+    if isinstance(e, ast.BinOp) and isinstance(e.op, (ast.Add, ast.Sub)):
+        l, r = _lin(e.left), _lin(e.right)
+        if l is None or r is None:
+            return None
+        sgn = 1 if isinstance(e.op, ast.Add) else -1
+        if r[0] is None:
+            return l[0], l[1] + sgn * r[1]
+        if l[0] is None and sgn == 1:
+            return r[0], l[1] + r[1]
+        return None
+    if isinstance(e, ast.Call) and isinstance(e.func, ast.Attribute) and e.func.attr in ('end', 'start') and not e.args:
+        return ast.unparse(e), 0
+    if isinstance(e, ast.Call) and isinstance(e.func, ast.Name) and e.func.id == 'len' and len(e.args) == 1:
+        return ast.unparse(e), 0
+    return None
+
+
+def _conjuncts(t, neg=False):
+    """atomic comparisons known to hold when test t is true (neg: when it is false)"""
+    if isinstance(t, ast.UnaryOp) and isinstance(t.op, ast.Not):
+        yield from _conjuncts(t.operand, not neg)
+    elif isinstance(t, ast.BoolOp) and ((isinstance(t.op, ast.And) and not neg) or (isinstance(t.op, ast.Or) and neg)):
+        for v in t.values:
+            yield from _conjuncts(v, neg)
+    elif isinstance(t, ast.Compare) and len(t.ops) == 1:
+        yield t, neg
+
+
+_FLIP = {ast.Lt: ast.GtE, ast.LtE: ast.Gt, ast.Gt: ast.LtE, ast.GtE: ast.Lt}
+
+
+def _implies_lt(cmp_, neg, lo, hi):
+    """does the comparison (negated if neg) imply  lo + k < hi  ? returns the largest such k or None; lo/hi are base texts"""
+    op = type(cmp_.ops[0])
+    if neg:
+        op = _FLIP.get(op)
+    if op is None:
+        return None
+    a, b = _lin(cmp_.left), _lin(cmp_.comparators[0])
+    if a is None or b is None:
+        return None
+    if op in (ast.Gt, ast.GtE):          # b < a
+        a, b = b, a
+        op = ast.Lt if op is ast.Gt else ast.LtE
+    if op not in (ast.Lt, ast.LtE):
+        return None
+    if a[0] != lo or b[0] != hi:
+        return None
+    # lo + a1 < hi + b1  =>  lo + (a1 - b1) < hi ;  <= gives one less
+    return (a[1] - b[1]) - (1 if op is ast.LtE else 0)
+
+
+def text_index_reads(fn):
+    """[(subscript node, 'upper'|'lower', needed k, satisfied?, evidence text)] for S[m.end()+k] / S[m.start()-k] reads"""
+    parents = {}
+    for n in ast.walk(fn):
+        for ch in ast.iter_child_nodes(n):
+            parents[id(ch)] = n
+    out = []
+    for node in ast.walk(fn):
+        if not (isinstance(node, ast.Subscript) and isinstance(node.ctx, ast.Load) and not isinstance(node.slice, ast.Slice)
+                and isinstance(node.value, ast.Name)):
+            continue
+        lf = _lin(node.slice)
+        if lf is None or lf[0] is None or not lf[0].endswith(('.end()', '.start()')):
+            continue
+        S = node.value.id
+        # facts that hold here: tests of enclosing ifs / whiles / conditional expressions, earlier operands of enclosing `and`
+        # chains, negations of earlier guard clauses that leave the block
+        facts = []
+        cur = node
+        while id(cur) in parents:
+            par = parents[id(cur)]
+            if isinstance(par, (ast.If, ast.While)) and cur is not par.test:
+                in_body = any(cur is st for st in par.body)
+                facts.extend(_conjuncts(par.test, neg=not in_body))
+            elif isinstance(par, ast.IfExp) and cur is not par.test:
+                facts.extend(_conjuncts(par.test, neg=cur is par.orelse))
+            elif isinstance(par, ast.BoolOp) and isinstance(par.op, ast.And):
+                i = next(j for j, v in enumerate(par.values) if v is cur)
+                for v in par.values[:i]:
+                    facts.extend(_conjuncts(v))
+            for field in ('body', 'orelse'):
+                blk = getattr(par, field, None)
+                if isinstance(blk, list) and any(cur is st for st in blk):
+                    i = next(j for j, st in enumerate(blk) if st is cur)
+                    for st in blk[:i]:
+                        if isinstance(st, ast.If) and not st.orelse and st.body and isinstance(st.body[-1], (ast.Continue, ast.Return, ast.Break, ast.Raise)):
+                            facts.extend(_conjuncts(st.test, neg=True))
+            cur = par
+        base, k = lf
+        if base.endswith('.end()') and k >= 0:
+            best = [r for r in (_implies_lt(c, ng, base, 'len(%s)' % S) for c, ng in facts) if r is not None]
+            ok = any(r >= k for r in best)
+            out.append((node, 'upper', k, ok, '; '.join(ast.unparse(c) for c, ng in facts)[:120]))
+        if base.endswith('.start()') and k < 0:
+            # need  0 <= start + k, i.e.  (-k - 1) < start
+            ok = False
+            for c, ng in facts:
+                op = type(c.ops[0])
+                if ng:
+                    op = _FLIP.get(op)
+                a, b = _lin(c.left), _lin(c.comparators[0])
+                if op is None or a is None or b is None:
+                    continue
+                if op in (ast.Lt, ast.LtE):
+                    a, b, op = b, a, (ast.Gt if op is ast.Lt else ast.GtE)
+                if op in (ast.Gt, ast.GtE) and a[0] == base and b[0] is None:
+                    # start + a1 > b1  (>=)  =>  start >= b1 - a1 + 1  (b1 - a1)
+                    least = b[1] - a[1] + (1 if op is ast.Gt else 0)
+                    if least >= -k:
+                        ok = True
+            out.append((node, 'lower', -k, ok, '; '.join(ast.unparse(c) for c, ng in facts)[:120]))
+    return out
+
+
+def rule_textindex(chk, idx):
+    chk.rule('C06.textindex', 'a character of the text read at a regex match boundary is dominated by a bound test that keeps the index inside the text',
+             floor=1, control=True)
+    for mod, cls, fn in idx.functions():
+        if not mod.name.startswith(DT) or '.resources.' in mod.name:
+            continue
+        q = (cls.name + '.' if cls else '') + fn.name
+        for node, side, k, ok, ev in text_index_reads(fn):
+            cons = '%s: %s' % (q, ast.unparse(node))
+            if side == 'upper':
+                msg = ('%s reads %s, but nothing on the way there ensures %s < len(%s): when the match ends at the end of the text the read raises '
+                       'IndexError, which the model swallows - every entity of the query is lost' % (q, ast.unparse(node), ast.unparse(node.slice), node.value.id))
+            else:
+                msg = ('%s reads %s, but nothing on the way there ensures the index is not negative: at the start of the text it silently reads '
+                       'from the other end' % (q, ast.unparse(node)))
+            chk.judge(ok, 'C06.textindex', mod.path, cons, '%s bound: %s' % (side, 'guarded by ' + ev if ok else 'no dominating test (%s)' % (ev or 'none')),
+                      msg, node.lineno)
+    ctl = ast.parse("def f(self, source):\n    for match in ms:\n        if match.start() > 0:\n"
+                    "            if source[match.start() - 1] == '-' and source[match.end()] == '-':\n                continue\n").body[0]
+    rs = text_index_reads(ctl)
+    chk.control('C06.textindex', any(side == 'upper' and not ok for _, side, _, ok, _ in rs) and any(side == 'lower' and ok for _, side, _, ok, _ in rs))
 
 
 # =====================================================================================================
